@@ -291,7 +291,62 @@ def _f_body(pre, d):
     return True
 
 
+# ------------------------------------------------------------------ C04.g public include / exclude keywords under all six encodings
+_G = {}
+
+
+def ob_g(d: int, i: int, x: int) -> bool:
+    n = len(TC) + 1
+    assume(0 <= d < 2 and 0 <= i < n and 0 <= x < n)
+    return _g_body(choose(d, 2), choose(i, n), choose(x, n))
+
+
+@native
+def _g_body(d, i, x):
+    """kp.dumps(doc, include=.., exclude=.., encoding=e) for the six encodings: the keyword route (option parsing included) gives
+    consistent views -- plain == extended minus separators, basic == full minus signifiers note by note (cell model)."""
+    from sv.ref import cats as refcats
+    if 'tree' not in _G:
+        entries, _ = refcats.documented()
+        _G['tree'] = refcats.Model(entries)
+        P = docs.pool()
+        _G['docs'] = [(D, kp.loads(D.text())[0], sorted({c.text for r in D.rows for c in r if c.kind == 'header'})) for D in (docs.with_clef(P[0]), docs.with_clef(P[1]))]
+    tree = _G['tree']
+    D, doc, heads = _G['docs'][d]
+    names = [c.name for c in TC]
+    inc = None if i == 0 else [names[i - 1]]
+    exc = None if x == 0 else [names[x - 1]]
+    sel = set()
+    for n_ in (inc if inc is not None else names):
+        sel.update(tree.closure(n_))
+    for n_ in exc or []:
+        sel.difference_update(tree.closure(n_))
+    if not ({'DURATION', 'PITCH'} & sel):
+        return True            # the property speaks of selections that keep at least durations or pitches
+    kw = {}
+    if inc is not None:
+        kw['include'] = [TC[n_] for n_ in inc]
+    if exc is not None:
+        kw['exclude'] = {TC[n_] for n_ in exc}
+    outs = [kp.dumps(doc, spine_types=heads, encoding=e, **kw) for e in ENC]
+
+    def strip(s):
+        return ''.join(ch for ch in s if ch not in '@·')
+    for plain, ext in ((0, 1), (2, 3), (4, 5)):
+        check(outs[plain].split('\n')[1:] == strip(outs[ext]).split('\n')[1:],
+              f'include={inc} exclude={exc}: {ENC_NAMES[plain]} is not {ENC_NAMES[ext]} minus separators: {outs[plain]!r} vs {outs[ext]!r}')
+    for k in range(4):
+        exp = D.expected(ENC_NAMES[k], keep=lambda c: c in sel)
+        got = cells.parse_grid(outs[k])
+        check(cells.rows_equal(got, exp), f'include={inc} exclude={exc}: {ENC_NAMES[k]} export {got}, cell model {exp}')
+    return True
+
+
 OBLIGATIONS = [
+    Ob(id='C04.g', fn=ob_g, title='the keyword route: dumps(include=.., exclude=.., encoding=e) for the six encodings is consistent with the cell model',
+       shard_of=lambda d, i, x: i, shards={'quick': 8, 'thorough': 8}, budget_s={'quick': 150, 'thorough': 600}, native_body=True,
+       witnesses=[{'d': 0, 'i': 0, 'x': 9}], min_confirmed=1000, enumerated='document (2), include (None | 37 singles), exclude (None | 37 singles)',
+       bounds={'quick': '2 pool documents x 38 x 38 keyword pairs x 6 encodings (selections that keep durations or pitches)', 'thorough': 'same'}),
     Ob(id='C04.f', fn=ob_f, title='histories from the first call of a fresh interpreter: the kern / ekern / bkern / bekern views stay consistent with the cell model',
        shard_of=lambda pre, d: pre, shards={'quick': 5, 'thorough': 5}, budget_s={'quick': 150, 'thorough': 600}, native_body=True,
        witnesses=[{'pre': 0, 'd': 0}], min_confirmed=15, enumerated='first call (10 kinds, incl. none), document (2)',
